@@ -529,8 +529,64 @@ func (g *Graph) Reach(starts []int, blockV func(v *Vertex) bool, blockE func(e E
 // reach: markStarts=false leaves the start vertices out of the result unless they are reached
 // again (used by ReachAfter, which must still apply the start vertex's own effects).
 func (g *Graph) reach(starts []int, blockV func(v *Vertex) bool, blockE func(e Edge) bool, markStarts bool) VSet {
+	return g.reachGhost(starts, blockV, blockE, markStarts, nil)
+}
+
+// ghostT adds one more tracked variable to a flag-sensitive search: eff gives the vertices that
+// assign it (and the value), vals collects the values it can hold on arrival at vertex at
+// (flagUnknown: never assigned on that path). Used to ask which definitions of a variable reach
+// a use along paths the function's own flag tests allow.
+type ghostT struct {
+	eff    map[int]int64
+	at     int
+	vals   map[int64]bool
+	failed bool
+}
+
+var ghostObj types.Object = types.NewVar(token.NoPos, nil, "·ghost", types.Typ[types.Int])
+
+func (g *Graph) reachGhost(starts []int, blockV func(v *Vertex) bool, blockE func(e Edge) bool, markStarts bool, gh *ghostT) VSet {
+	return g.reachCore(starts, nil, blockV, blockE, markStarts, gh)
+}
+
+// ReachFromEdges is Reach started at the targets of the given edges, knowing what crossing each
+// edge tells about the flag its condition tests (the error is non-nil past `err != nil` …).
+func (g *Graph) ReachFromEdges(edges []Edge, blockV func(v *Vertex) bool, blockE func(e Edge) bool) VSet {
 	g.initFlags()
+	var starts []int
+	var envs []map[types.Object]int64
+	for _, e := range edges {
+		var env map[types.Object]int64
+		if t, ok := g.flagTest[e.From]; ok && (e.Label == LTrue || e.Label == LFalse) {
+			val := t.onTrue
+			if t.onTrue >= flagIntBase-1000000 {
+				if (e.Label == LTrue) == t.neq {
+					val = flagUnknown
+				}
+			} else if e.Label == LFalse {
+				val = flagComplement(val)
+			}
+			if val != flagUnknown {
+				env = map[types.Object]int64{t.obj: val}
+			}
+		}
+		starts = append(starts, e.To)
+		envs = append(envs, env)
+	}
 	if len(g.flagVars) == 0 {
+		return g.reachPlain(starts, blockV, blockE)
+	}
+	gh := &ghostT{eff: map[int]int64{}, at: -1, vals: map[int64]bool{}}
+	seen := g.reachCore(starts, envs, blockV, blockE, true, gh)
+	if gh.failed {
+		return g.reachPlain(starts, blockV, blockE)
+	}
+	return seen
+}
+
+func (g *Graph) reachCore(starts []int, startEnvs []map[types.Object]int64, blockV func(v *Vertex) bool, blockE func(e Edge) bool, markStarts bool, gh *ghostT) VSet {
+	g.initFlags()
+	if len(g.flagVars) == 0 && gh == nil {
 		if markStarts {
 			return g.reachPlain(starts, blockV, blockE)
 		}
@@ -575,13 +631,17 @@ func (g *Graph) reach(starts []int, blockV func(v *Vertex) bool, blockE func(e E
 		return strings.Join(ks, ",")
 	}
 	var stack []item
-	for _, s := range starts {
+	for i, s := range starts {
 		if markStarts {
-			st := state{s, ""}
+			var env0 map[types.Object]int64
+			if i < len(startEnvs) {
+				env0 = startEnvs[i]
+			}
+			st := state{s, key(env0)}
 			if !visited[st] {
 				visited[st] = true
 				seen[s] = true
-				stack = append(stack, item{s, nil})
+				stack = append(stack, item{s, env0})
 			}
 		} else {
 			// not marked visited: re-entering the start with an empty environment must expand again
@@ -593,9 +653,16 @@ func (g *Graph) reach(starts []int, blockV func(v *Vertex) bool, blockE func(e E
 		stack = stack[:len(stack)-1]
 		v := g.V[it.v]
 		env := it.env
+		if gh != nil && it.v == gh.at {
+			gh.vals[env[ghostObj]] = true
+		}
 		// effects of the vertex
-		if effs := g.flagEff[it.v]; len(effs) > 0 {
-			ne := make(map[types.Object]int64, len(env)+len(effs))
+		gval, gset := int64(0), false
+		if gh != nil {
+			gval, gset = gh.eff[it.v]
+		}
+		if effs := g.flagEff[it.v]; len(effs) > 0 || gset {
+			ne := make(map[types.Object]int64, len(env)+len(effs)+1)
 			for o, val := range env {
 				ne[o] = val
 			}
@@ -613,6 +680,9 @@ func (g *Graph) reach(starts []int, blockV func(v *Vertex) bool, blockE func(e E
 				default:
 					ne[ef.obj] = ef.val
 				}
+			}
+			if gset {
+				ne[ghostObj] = gval
 			}
 			env = ne
 		}
@@ -669,6 +739,10 @@ func (g *Graph) reach(starts []int, blockV func(v *Vertex) bool, blockE func(e E
 			}
 			if len(visited) > 200000 {
 				// give up on precision: fall back to plain reachability
+				if gh != nil {
+					gh.failed = true
+					return seen
+				}
 				saved := g.flagVars
 				g.flagVars = nil
 				r := g.reach(starts, blockV, blockE, markStarts)
@@ -681,6 +755,23 @@ func (g *Graph) reach(starts []int, blockV func(v *Vertex) bool, blockE func(e E
 		}
 	}
 	return seen
+}
+
+// concreteOperand: the expression has a concrete (non-interface) type, so an interface variable
+// it is assigned to holds a type and compares unequal to nil whatever the value is.
+func concreteOperand(info *types.Info, e ast.Expr) bool {
+	tv, ok := info.Types[ast.Unparen(e)]
+	if !ok || tv.Type == nil || tv.IsNil() {
+		return false
+	}
+	if b, isB := tv.Type.(*types.Basic); isB && b.Kind() == types.UntypedNil {
+		return false
+	}
+	if _, isTP := tv.Type.(*types.TypeParam); isTP {
+		return false
+	}
+	_, isIface := tv.Type.Underlying().(*types.Interface)
+	return !isIface
 }
 
 // flagIntBase + k encodes the integer constant k (|k| < 10^6): small state variables assigned
@@ -790,11 +881,20 @@ func (g *Graph) initFlags() {
 		if v.Node == nil {
 			continue
 		}
-		// variables assigned or address-taken inside closures are not tracked
+		// variables assigned or address-taken inside closures are not tracked; a closure that is
+		// itself the deferred call runs only when the function exits, after every vertex of the
+		// body, so what it assigns cannot change a value the body's own tests see
+		var deferredLit *ast.FuncLit
+		if ds, isDefer := v.Node.(*ast.DeferStmt); isDefer {
+			deferredLit, _ = ast.Unparen(ds.Call.Fun).(*ast.FuncLit)
+		}
 		ast.Inspect(v.Node, func(n ast.Node) bool {
 			lit, ok := n.(*ast.FuncLit)
 			if !ok {
 				return true
+			}
+			if lit == deferredLit {
+				return false
 			}
 			ast.Inspect(lit.Body, func(m ast.Node) bool {
 				switch x := m.(type) {
@@ -846,7 +946,7 @@ func (g *Graph) initFlags() {
 				if len(n.Lhs) == len(n.Rhs) && (n.Tok == token.ASSIGN || n.Tok == token.DEFINE) {
 					val = constVal(n.Rhs[i])
 					if val == flagUnknown {
-						if _, isIface := o.Type().Underlying().(*types.Interface); isIface && nonNilErrExpr(info, n.Rhs[i]) {
+						if _, isIface := o.Type().Underlying().(*types.Interface); isIface && (nonNilErrExpr(info, n.Rhs[i]) || concreteOperand(info, n.Rhs[i])) {
 							val = flagNonNil
 						}
 					}
